@@ -217,8 +217,10 @@ outer:
 	})
 
 	// Keep first (highest ranked) for each main value
+	// (the same value with other parameters is another value:
+	// "application/json;version=1" and "application/json;version=2")
 	qualityParts = slices.CompactFunc(qualityParts, func(a, b qualityValue) bool {
-		return a.main == b.main
+		return a.main == b.main && slices.Equal(a.params, b.params)
 	})
 
 	// Reconstruct
@@ -259,8 +261,21 @@ var encodingReplacer = strings.NewReplacer(
 
 // normalizeEncodingHeader handles special cases for encoding headers.
 func normalizeEncodingHeader(value string) string {
-	value = encodingReplacer.Replace(value)
-	return normalizeOrderInsensitive(value)
+	// The aliases stand for whole codings: "x-gzip" is gzip, "x-gzip-ng" is
+	// not "gzip-ng".
+	parts := slices.Collect(TrimmedCSVSeq(value))
+	for i, part := range parts {
+		coding, params, hasParams := strings.Cut(part, ";")
+		switch strings.TrimSpace(coding) {
+		case "x-gzip", "x-compress":
+			coding = encodingReplacer.Replace(coding)
+		}
+		if hasParams {
+			coding += ";" + params
+		}
+		parts[i] = coding
+	}
+	return normalizeOrderInsensitive(strings.Join(parts, ","))
 }
 
 // VaryHeaderNormalizer describes the interface implemented by types that can
